@@ -4,7 +4,7 @@
     >= 23); [value_at d h u old p] = handle [h] holds the characteristic value [old] whose
     declaration, with properties [p], is at [h-1]; value lengths are only bounded by the
     16-bit offset field (< 65536). *)
-From Coq Require Import List NArith Arith.
+From Coq Require Import List NArith Arith Bool.
 From Whad Require Import Lib.Bytes C09.Model C09.Proofs.
 Import ListNotations.
 
